@@ -94,7 +94,9 @@ def str_shim_factory():
 
 def bytes_shim(x=b"", *a):
     if isinstance(x, SymBytes):
-        return x
+        return SymBytes(list(x.e)) if x.mutable else x
+    if isinstance(x, SymView):
+        return SymBytes(list(x.b.e))
     return _real_bytes(x, *a)
 
 
@@ -126,6 +128,59 @@ class SymBytesIO:
         out = self.b[self.pos:self.pos + n]
         self.pos += len(out)
         return out
+
+    def getvalue(self):
+        return SymBytes(list(self.b.e))
+
+    def __getattr__(self, name):
+        if name.startswith("__"):
+            raise AttributeError(name)
+        raise Unsupported(f"BytesIO.{name} on symbolic bytes")
+
+
+class SymView:
+    """memoryview over symbolic bytes: context manager + slicing"""
+
+    def __init__(self, b):
+        self.b = b
+
+    def __enter__(self):
+        return self
+
+    def __exit__(self, *a):
+        return False
+
+    def __getitem__(self, i):
+        return self.b[i]
+
+    def __len__(self):
+        return len(self.b)
+
+    def release(self):
+        pass
+
+    def tobytes(self):
+        return SymBytes(list(self.b.e))
+
+
+def memoryview_shim(x):
+    if isinstance(x, SymBytes):
+        return SymView(x)
+    return memoryview(x)
+
+
+class _BAMeta(type):
+    def __instancecheck__(cls, o):
+        return isinstance(o, bytearray) or (isinstance(o, SymBytes) and o.mutable)
+
+
+class BytearrayShim(metaclass=_BAMeta):
+    def __new__(cls, x=b"", *a):
+        if isinstance(x, SymBytes):
+            return SymBytes(list(x.e), mutable=True)
+        if isinstance(x, SymView):
+            return SymBytes(list(x.b.e), mutable=True)
+        return bytearray(x, *a)
 
 
 class MergedList(list):
@@ -386,6 +441,9 @@ def install(ifconv=True, pred=True, merged_nmea=True, crc_ifconv=True):
     if isinstance(rh.__dict__.get('RTCM_DATA_FIELDS'), dict):
         rh.__dict__['RTCM_DATA_FIELDS'] = StrKeyMap(rh.__dict__['RTCM_DATA_FIELDS'])
         info['shims'].append("RTCM_DATA_FIELDS (rtcmhelpers): symbolic string keys")
+    sw.__dict__['memoryview'] = memoryview_shim
+    sw.__dict__['bytearray'] = BytearrayShim
+    info['shims'] += ["memoryview / bytearray (socketwrapper)"]
     sw.__dict__['bytes'] = bytes_shim
     sw.__dict__['BytesIO'] = SymBytesIO
     info['shims'] += ["bytes (socketwrapper)", "BytesIO (socketwrapper)"]
@@ -414,6 +472,24 @@ def install(ifconv=True, pred=True, merged_nmea=True, crc_ifconv=True):
             if rr.__dict__.get('calc_crc24q') is orig['calc_crc24q']:
                 rr.__dict__['calc_crc24q'] = new
         info['transforms']['calc_crc24q'] = {'kind': 'if-conversion', 'sites': n}
+    # calls the proxies cannot intercept (literal.join) in the socket wrapper and the name helpers
+    nfr = 0
+    for cls_, names in ((sw.SocketWrapper, ("dechunk", "_recv", "read", "readline")),):
+        for nm in names:
+            f = cls_.__dict__.get(nm)
+            if f is not None:
+                new, n = transforms.friendly(f)
+                if n:
+                    setattr(cls_, nm, new)
+                    nfr += n
+    for nm in ("att2idx", "att2name", "datadesc", "_att2parts"):
+        f = rh.__dict__.get(nm)
+        if callable(f):
+            new, n = transforms.friendly(f)
+            if n:
+                rh.__dict__[nm] = new
+                nfr += n
+    info['transforms']['literal.join rewrites'] = {'kind': 'proxy-friendly call rewrite', 'sites': nfr}
     # constant lookup tables read with symbolic keys
     info['orig'] = orig
     info['mods'] = {'rm': rm, 'rh': rh, 'rr': rr, 'sw': sw}
